@@ -1180,6 +1180,9 @@ func (fc *FuncCtx) runLoop(node ast.Node, st *State, implicit func(h *State) []s
 			return
 		}
 		for i, inv := range ls.Invs {
+			if inv.Profile != "" && inv.Profile != fc.profile {
+				continue
+			}
 			env := fc.specEnv(s, fc.entry, bodyPos, bindSpec(s))
 			lbl := inv.Label
 			if lbl == "" {
@@ -1217,6 +1220,9 @@ func (fc *FuncCtx) runLoop(node ast.Node, st *State, implicit func(h *State) []s
 	}
 	if ls != nil {
 		for _, inv := range ls.Invs {
+			if inv.Profile != "" && inv.Profile != fc.profile {
+				continue
+			}
 			env := fc.specEnv(h, fc.entry, bodyPos, bindSpec(h))
 			h.assume(env.evalBool(inv.Expr))
 		}
